@@ -94,6 +94,13 @@ func init() {
 			{Name: "by_key", Num: 1, MapKey: TString, MapVal: TMessage, MapValType: p + "StringList"},
 			{Name: "id", Num: 2, Type: TString},
 		}}
+		// map-value unwrap whose wrapper holds messages
+		bar := M{Name: "Bar", Fields: []F{{Name: "symbol", Num: 1, Type: TString}, {Name: "volume", Num: 2, Type: TInt32}}}
+		barlist := M{Name: "BarList", Fields: []F{{Name: "bars", Num: 1, Type: TMessage, TypeName: p + "Bar", Repeated: true, Ext: []ExtV{unwrap()}}}}
+		portfolio := M{Name: "Portfolio", Fields: []F{
+			{Name: "bars_by_symbol", Num: 1, MapKey: TString, MapVal: TMessage, MapValType: p + "BarList"},
+			{Name: "id", Num: 2, Type: TString},
+		}}
 		rootlist := M{Name: "RootList", Fields: []F{{Name: "items", Num: 1, Type: TString, Repeated: true, Ext: []ExtV{unwrap()}}}}
 		enumm := M{Name: "EnumMsg", Fields: []F{
 			{Name: "status", Num: 1, Type: TEnum, TypeName: p + "Status"},
@@ -110,7 +117,7 @@ func init() {
 		return Schema{Files: []File{{
 			Name: "gen/codecs/codecs.proto", Package: "acme.codecs", GoPackage: "verifmod/gen/codecs;codecs",
 			Deps:     []string{"proto/sebuf/http/annotations.proto", "google/protobuf/timestamp.proto"},
-			Messages: []M{child, small, int64m, nullm, emptym, flatm, flatchild, flatann, money, pricem, text, image, oneofm, oneofflat, bytesm, timem, strlist, unwrapmap, rootlist, enumm, holder},
+			Messages: []M{child, small, int64m, nullm, emptym, flatm, flatchild, flatann, money, pricem, text, image, oneofm, oneofflat, bytesm, timem, strlist, unwrapmap, bar, barlist, portfolio, rootlist, enumm, holder},
 			Enums: []E{
 				{Name: "Status", Values: []EV{{Name: "STATUS_UNSPECIFIED", Num: 0, Ext: []ExtV{enumValue("unknown")}}, {Name: "STATUS_ACTIVE", Num: 1, Ext: []ExtV{enumValue("active")}}}},
 				{Name: "Priority", Values: []EV{{Name: "PRIORITY_UNSPECIFIED", Num: 0}, {Name: "PRIORITY_HIGH", Num: 1}}},
